@@ -75,7 +75,7 @@ def gen_store(rng, tier, seed):
         else:
             ops.append(['get_resolving_keys', ns])
     return {'buffer': rng.choice([16, 64, 256, 8192]), 'ops': ops, 'fault': rng.choice(['crash', 'crash', 'eio', 'enospc']),
-            'precreate_dir': rng.random() < 0.5}
+            'precreate_dir': rng.random() < 0.5, 'long_lived': rng.random() < 0.5}
 
 
 def _run_coro(coro):
@@ -154,6 +154,7 @@ class Runner:
             self.fs.mkdir('/data/bumble', True, True)
         self.fs.plan = plan
         self.model = Model()
+        self.stores = {}
         self.violations = []
         self.step_ranges = []  # per op: (first step, last step) of mutating ops
         self.fault_info = None
@@ -165,7 +166,12 @@ class Runner:
     def store(self, ns):
         from bumble.keys import JsonKeyStore
 
-        return JsonKeyStore(None if ns == 'default' else NAMESPACES[ns], FILE)
+        if not self.case.get('long_lived'):
+            return JsonKeyStore(None if ns == 'default' else NAMESPACES[ns], FILE)
+        # one instance per namespace for the life of the process: several live instances share the file and are used alternately
+        if ns not in self.stores:
+            self.stores[ns] = JsonKeyStore(None if ns == 'default' else NAMESPACES[ns], FILE)
+        return self.stores[ns]
 
     def raw(self):
         """The file as the class docstring lays it out: ns -> peer -> fields. None if absent."""
@@ -247,6 +253,7 @@ class Runner:
             except simfs.Crash:
                 crashed = True
                 self.fs.crash_cleanup()
+                self.stores.clear()  # the process is gone, and with it every store instance
             except OSError as e:
                 if self.fs.fired is None:
                     self.v('oserror', f'store:unexpected-oserror:{kind}', repr(e))
